@@ -94,7 +94,7 @@ class Runner:
             try:
                 obj = DescriptorFormat(pair[0], pair[1])
             except ValueError:
-                if valid:
+                if valid is True:
                     self.fail("valid-rejected", f"constructor rejected valid patterns {pair}")
                 obj = None
             except Exception as e:  # noqa: BLE001
@@ -108,12 +108,12 @@ class Runner:
             try:
                 obj.__enter__()
             except ValueError:
-                if valid:
+                if valid is True:
                     self.fail("valid-rejected", f"entering a context with valid patterns {pair} raised ValueError")
             except Exception as e:  # noqa: BLE001
                 self.fail("exception", f"__enter__ raised {type(e).__name__}: {e}")
             else:
-                if not valid:
+                if valid is False:
                     self.fail("invalid-accepted", f"context with invalid patterns {pair} was entered", "ValueError", "entered")
                 if len(self.changed_at) > self.created_at[op[1]]:
                     self.flags.add("enter-after-change")
@@ -158,12 +158,12 @@ class Runner:
             try:
                 DescriptorFormat.set_config(pair[0], pair[1])
             except ValueError:
-                if valid:
+                if valid is True:
                     self.fail("valid-rejected", f"set_config rejected valid patterns {pair}")
             except Exception as e:  # noqa: BLE001
                 self.fail("exception", f"set_config raised {type(e).__name__}: {e}")
             else:
-                if not valid:
+                if valid is False:
                     self.fail("invalid-accepted", f"set_config accepted invalid patterns {pair}", "ValueError", "accepted")
                 if pair != self.current:
                     self.changed_at.append(self.n)
@@ -178,7 +178,7 @@ class Runner:
         got = (cfg.get("decay_pattern"), cfg.get("sub_decay_pattern"))
         if got != tuple(self.current) or set(cfg) != {"decay_pattern", "sub_decay_pattern"}:
             self.fail("config", "format in force differs from the stack model", list(self.current), list(got))
-        if render:
+        if render and not any(x in p for p in self.current for x in (":d}", "!x}", "!q}", ":=+9.2f}")):
             try:
                 s = chain().to_string()
             except Exception as e:  # noqa: BLE001
@@ -291,6 +291,10 @@ def pattern(draw, sub=False):
         return txt
 
     kind = draw(st.integers(0, 9))
+    if kind == 8 and draw(st.booleans()):
+        # both placeholders, no other field, but a conversion / format spec that cannot be applied to a string: the statement
+        # only speaks about placeholders, so such a pattern may be accepted -- or rejected, then without any effect
+        return draw(st.sampled_from(("{mother:d} -> {daughters}", "{mother} -> {daughters!x}", "({mother!q} -> {daughters})", "{mother:=+9.2f} {daughters}"))), "either"
     if kind == 9 and draw(st.booleans()):
         # malformed replacement fields: rejected like any other invalid pattern
         return draw(st.sampled_from(("{mother -> {daughters}", "{mother} -> daughters}", "{mother} -> {daughters", "{mother} } {daughters}",
@@ -326,7 +330,14 @@ def pattern(draw, sub=False):
 def pattern_pair(draw):
     a, va = draw(pattern())
     b, vb = draw(pattern(sub=True))
-    valid = None if (va is None or vb is None) else (va and vb)
+    if va is None or vb is None:
+        valid = None
+    elif va is False or vb is False:
+        valid = False
+    elif va == "either" or vb == "either":
+        valid = "either"
+    else:
+        valid = True
     return (a, b), valid
 
 
